@@ -249,6 +249,13 @@ class Sym:
                 import numpy as np
                 if isinstance(other, (np.integer, np.floating)):
                     other = other.item()
+                elif isinstance(other, np.ndarray):
+                    # scalar (op) array: element-wise, like numpy does for an object scalar
+                    out = np.empty(other.shape, dtype=object)
+                    for idx in np.ndindex(other.shape):
+                        x = other[idx]
+                        out[idx] = self._bin(x.item() if isinstance(x, np.generic) else x, op, refl)
+                    return out
                 else:
                     return NotImplemented
             except ImportError:
